@@ -12,6 +12,7 @@ RULE = (
     "running toggles; continuous and batch clearing) on one real Market; runner drive: generated configurations "
     "with scripted agents. A case is one matching round; distinct = hash(pre-round shadow book, fills); "
     "non-trivial = round with >=2 fills, a market order, a same-step tie or a partially filled resting order."
+    " Since the seeded rounds: every fill is also judged against the limit as it was handed to the market (before tick rounding); direct histories contain requests refused by design (foreign order, resubmission, foreign / unsubmitted cancel), forced rounds on a stopped market and cancel bursts in stopped phases; runner cases include a 'clipped' profile (price limit rule + far-out quotes of normal and HFT agents)."
 )
 ASSUMPTIONS = [
     "observation points Market._add_order/_cancel_order/_execution/_update_time are the calls the runner makes",
